@@ -196,8 +196,9 @@ def edited_leg(ctx, rng, uni, valid_strings, quick):
         strs.add(edits(rng, s, rng.choice([0, 1, 1, 2, 3])))
     import re
     # outside this leg: prefix routes and mixtures (':', '%', '/'), blanks inside [..] or {..} tags and a leading blank
-    # (the documentation is silent about them), and unit-like lower-case runs after a number (mixture quantities)
-    silent = re.compile(r"[\[{][^\]}]*\s|\s[\]}]|^\s|\s$|[0-9.]\s*(?:[numkc]?[gLm]|[num]L)\b")
+    # (the documentation is silent about them), and a unit after a number (a mixture quantity: "0.5L0.5Lu" is half a
+    # litre of 0.5Lu; no blank or word boundary is needed after the unit, but "0.5Lu" is the element Lu)
+    silent = re.compile(r"[\[{][^\]}]*\s|\s[\]}]|^\s|\s$|[0-9.]\s*(?:kg|mg|ug|ng|g|mL|uL|nL|L|cm|mm|um|nm)(?![a-z])")
     def blanks_settled(x):
         # every blank must sit where the documentation speaks about it: between the end of a group
         # (letter, digit, '.', ')', ']', '}', '+') and the start of the next one (capital, digit, '.', '(', '+')
